@@ -16,9 +16,9 @@
  *     all calls: a call with n blocks covers block numbers [g_c_blocks, g_c_blocks+n); harnesses start
  *     the counter at bytes/64 of the hash object so that block numbers are absolute stream block indices);
  *   - for the WATCHED (block number g_cw_blk, byte offset g_cw_off) - selectors the harness leaves
- *     unconstrained and nothing assigns - the byte at that position, the index of the delivering call
- *     and how often the block number was delivered;
- *   - (state pointer, block pointer, n) of the first three calls; the state words it produced last.
+ *     unconstrained and nothing assigns - the byte at that position and how often the block number was delivered;
+ *   - for the watched state word g_sk: whether every call read the value the previous call produced
+ *     (state chaining, by value), and the value produced last (g_c_cur).
  * A statement about (g_cw_blk, g_cw_off) is a statement about every byte of every block. */
 #ifndef VERIF_HASH_SPEC_H
 #define VERIF_HASH_SPEC_H
@@ -39,27 +39,42 @@ uint32_t nondet_u32_c(void);
 #endif
 size_t g_c_calls; uint64_t g_c_blocks;
 uint64_t g_cw_blk; unsigned g_cw_off;             /* watch selectors: never assigned after the harness fixed them */
-int g_cw_hit; unsigned char g_cw_byte; size_t g_cw_call;
-uint32_t *g_c_state[3]; const unsigned char *g_c_ptr[3]; size_t g_c_n[3];
-uint32_t g_c_out[8];
-unsigned char *g_mc_base; size_t g_mc_doff; unsigned g_mc_calls;   /* memcpy model (below) */
+unsigned g_sk;                                    /* selector of ONE state word (< 8), never assigned by code or contracts */
+int g_cw_hit; unsigned char g_cw_byte;
+uint32_t g_c_cur;                                 /* value the watched state word must have when it next enters the compression function */
+int g_c_chain_bad;                                /* a call whose input state word differs from g_c_cur (state not chained) */
+int g_c_bad;                                      /* a call with n == 0 */
+unsigned char *g_mc_base; size_t g_mc_doff;       /* memcpy model (below) */
 unsigned char *g_mc_big; size_t g_mc_big_idx;
-int g_c_bad;                                       /* a call with n == 0 or with a state pointer that is not 32 writable bytes */
-#define COMPLOG_RESET() do { g_c_calls = 0; g_c_blocks = 0; g_cw_hit = 0; g_cw_byte = 0; g_cw_call = 0; g_c_bad = 0; \
-    g_c_state[0] = g_c_state[1] = g_c_state[2] = NULL; g_c_ptr[0] = g_c_ptr[1] = g_c_ptr[2] = NULL; g_c_n[0] = g_c_n[1] = g_c_n[2] = 0; } while (0)
+#define COMPLOG_RESET() do { g_c_calls = 0; g_c_blocks = 0; g_cw_hit = 0; g_cw_byte = 0; g_c_bad = 0; g_c_chain_bad = 0; } while (0)
 
+/* The oracle states DATA FLOW by values, never by pointer identity or call count: which bytes it is handed
+ * under which block number, and that the state word it reads is the one the previous call produced
+ * (the harness seeds g_c_cur with the object's state word).  Any split of the blocks over calls passes. */
 static void verif_compress(uint32_t *s, const unsigned char *blocks, size_t n) {
 #ifndef VERIF_NATIVE
-    int i;
+    int i; uint32_t v;
     __CPROVER_assert(__CPROVER_rw_ok(s, 32), "C05 compression oracle: state pointer is 8 writable words");
     __CPROVER_assert(n <= (SIZE_MAX >> 6) && (n == 0 || __CPROVER_r_ok(blocks, n * 64)), "C05 compression oracle: blocks[0..64n) is readable memory (nothing outside the caller's data is read)");
     if (n == 0) g_c_bad = 1;
+    if (s[g_sk] != g_c_cur) g_c_chain_bad = 1;
     if (g_cw_blk >= g_c_blocks && g_cw_blk - g_c_blocks < n) {
-        g_cw_hit++; g_cw_byte = blocks[(g_cw_blk - g_c_blocks) * 64 + g_cw_off]; g_cw_call = g_c_calls;
+        g_cw_hit++; g_cw_byte = blocks[(g_cw_blk - g_c_blocks) * 64 + g_cw_off];
     }
-    if (g_c_calls < 3) { g_c_state[g_c_calls] = s; g_c_ptr[g_c_calls] = blocks; g_c_n[g_c_calls] = n; }
     g_c_blocks += n; g_c_calls++;
-    for (i = 0; i < 8; i++) { s[i] = nondet_u32_c(); g_c_out[i] = s[i]; }
+    for (i = 0; i < 8; i++) { v = nondet_u32_c(); s[i] = v; if ((unsigned)i == g_sk) g_c_cur = v; }
+#else
+    (void)s; (void)blocks; (void)n;
+#endif
+}
+
+/* compression stub for the FRAME units (hash_frames.c): arbitrary function that reads blocks[0..64n) and
+ * writes s[0..7] only, no log (so that it fits an assigns clause that lists just *hash) */
+static void verif_compress_frame(uint32_t *s, const unsigned char *blocks, size_t n) {
+#ifndef VERIF_NATIVE
+    int i;
+    __CPROVER_assert(__CPROVER_rw_ok(s, 32) && n <= (SIZE_MAX >> 6) && (n == 0 || __CPROVER_r_ok(blocks, n * 64)), "C05 compression stub: state writable, blocks[0..64n) readable");
+    for (i = 0; i < 8; i++) s[i] = nondet_u32_c();
 #else
     (void)s; (void)blocks; (void)n;
 #endif
@@ -76,12 +91,13 @@ static void verif_compress(uint32_t *s, const unsigned char *blocks, size_t n) {
  *       order (g_c_blocks' = B1/64; the watched block is hit exactly once iff B0/64 <= g_cw_blk < B1/64),
  *       and the byte delivered at WP is stream(WP);
  *   (c) o < B1%64  ==>  buf'[o] = stream(64 (B1/64) + o);
- *   (d) state word g_sk: unchanged if no compression call happened, else the oracle's last output;
- *       an empty write changes nothing.
+ *   (d) state chaining by value: the object's state word g_sk enters the first compression call, each call
+ *       reads what the previous one produced, the object ends with the last output (g_c_cur); no call is
+ *       empty; a call happens iff a block completes; an empty write changes nothing.
+ *   Nothing is said about the NUMBER of calls or how blocks are grouped into calls.
  * ENFORCED on the real code in C05.sha256_write_contract (--enforce-contract), REPLACES the call in the
  * lemma harnesses (split lemma, finalize).  g_cw_off doubles as the watched buf offset of (c). */
 #ifdef HASH_SPEC_WRITE_CONTRACT
-unsigned g_sk;   /* ghost selector of a state word, < 8 */
 #define W_B0 __CPROVER_old(hash->bytes)
 #define W_B1 (W_B0 + len)
 #define W_WP (g_cw_blk * 64 + g_cw_off)
@@ -90,18 +106,18 @@ static void secp256k1_sha256_write(const secp256k1_hash_ctx *hash_ctx, secp256k1
 __CPROVER_requires(__CPROVER_rw_ok(hash, sizeof(*hash)) && (len == 0 || __CPROVER_r_ok(data, len)) && __CPROVER_r_ok(hash_ctx, sizeof(*hash_ctx)))
 __CPROVER_requires(hash_ctx->fn_sha256_compression == verif_compress)
 __CPROVER_requires(hash->bytes <= UINT64_MAX - len)                                     /* the function's own precondition (VERIFY_CHECK) */
-__CPROVER_requires(g_c_blocks == hash->bytes / 64)
-__CPROVER_requires(g_cw_off < 64 && g_sk < 8 && g_cw_blk <= (UINT64_MAX >> 6) && g_cw_hit >= 0 && g_cw_hit < 1000 && g_c_calls < 1000)
-__CPROVER_assigns(*hash, g_c_calls, g_c_blocks, g_cw_hit, g_cw_byte, g_cw_call, g_c_state, g_c_ptr, g_c_n, g_c_out, g_c_bad, g_mc_calls)
+__CPROVER_requires(g_c_blocks == hash->bytes / 64 && hash->s[g_sk] == g_c_cur)
+__CPROVER_requires(g_cw_off < 64 && g_sk < 8 && g_cw_blk <= (UINT64_MAX >> 6) && g_cw_hit >= 0 && g_cw_hit < 1000)
+__CPROVER_assigns(*hash, g_c_calls, g_c_blocks, g_cw_hit, g_cw_byte, g_c_cur, g_c_chain_bad, g_c_bad)
 __CPROVER_ensures(hash->bytes == W_B1)
 __CPROVER_ensures(g_c_blocks == W_B1 / 64)
 __CPROVER_ensures((W_B0 / 64 <= g_cw_blk && g_cw_blk < W_B1 / 64)
     ? (g_cw_hit == __CPROVER_old(g_cw_hit) + 1 && g_cw_byte == W_STREAM(W_WP))
     : (g_cw_hit == __CPROVER_old(g_cw_hit) && g_cw_byte == __CPROVER_old(g_cw_byte)))
 __CPROVER_ensures(g_cw_off < W_B1 % 64 ==> hash->buf[g_cw_off] == W_STREAM((W_B1 / 64) * 64 + g_cw_off))
-__CPROVER_ensures(g_c_calls >= __CPROVER_old(g_c_calls) && g_c_calls <= __CPROVER_old(g_c_calls) + 2 && g_c_bad == __CPROVER_old(g_c_bad))
+__CPROVER_ensures(g_c_calls >= __CPROVER_old(g_c_calls) && g_c_bad == __CPROVER_old(g_c_bad) && g_c_chain_bad == __CPROVER_old(g_c_chain_bad))
 __CPROVER_ensures((g_c_calls == __CPROVER_old(g_c_calls)) == (W_B1 / 64 == W_B0 / 64))       /* a compression call happens iff a block completes */
-__CPROVER_ensures(hash->s[g_sk] == (g_c_calls == __CPROVER_old(g_c_calls) ? __CPROVER_old(hash->s[g_sk]) : g_c_out[g_sk]))
+__CPROVER_ensures(hash->s[g_sk] == g_c_cur && (g_c_calls == __CPROVER_old(g_c_calls) ==> g_c_cur == __CPROVER_old(g_c_cur)))
 __CPROVER_ensures(len == 0 ==> (hash->buf[g_cw_off] == __CPROVER_old(hash->buf[g_cw_off]) && g_c_calls == __CPROVER_old(g_c_calls)))
 ;
 #endif
@@ -245,7 +261,6 @@ static void *verif_memcpy64(void *dst, const void *src, size_t n) {
     __CPROVER_assert(n <= MEMCPY_MAX, "C05 memcpy model: length within the modelled bound");
     __CPROVER_assert(n == 0 || !__CPROVER_same_object(dst, src), "C05 memcpy model: source and destination are different objects");
     __CPROVER_assert(n == 0 || __CPROVER_r_ok(src, n), "C05 memcpy model: source range is readable");
-    g_mc_calls++;
     if (g_mc_base != NULL && __CPROVER_same_object(dst, g_mc_base)) {
         size_t off_ = __CPROVER_POINTER_OFFSET(dst);
         unsigned char w_ = 0;
